@@ -771,7 +771,7 @@ func ruleChainStride(c *Ctx, shorts []string, rule string) {
 							for i, l := range as.Lhs {
 								if id := identOf(l); id != nil {
 									if sel, ok := unparen(as.Rhs[i]).(*ast.SelectorExpr); ok && isLink(sel) {
-										if o := info.Uses[id]; o != nil {
+										if o := info.Uses[id]; o != nil && !(o.Pos() > fs.Body.Pos() && o.Pos() < fs.Body.End()) {
 											assigned[o] = true
 										}
 									} else if rid := identOf(as.Rhs[i]); rid != nil {
